@@ -95,7 +95,7 @@ def replay(beh):
                 if perm != list(range(ns)):
                     swap_to[t] = torch.tensor(perm)
                 a0 = int(dyn._active_states[t])
-                a1 = perm[a0]
+                a1 = a0 if (beh.get("detect") and int(dyn.post_hop_holdoff[t]) > 0) else perm[a0]
                 E[t] = torch.tensor([0.2 * (s + 1) for s in range(ns)], dtype=torch.float64)
                 kin = inp["kin"]
                 m = float(kin["m"])
@@ -115,7 +115,19 @@ def replay(beh):
                     dEp = (b * b - r * r) * Fraction(int(m)) / (2 * D) if r > 0 else (b * b + 1) * Fraction(int(m)) / (2 * D)
                     if j != a1:
                         E[t, j] = E[t, a1] + float(dEp) * KE
-            dyn._trivial_crossing_mask = swap_to if (swap_to >= 0).any() else None
+            if beh.get("detect"):
+                # the permutation goes through the real _detect_crossings: old amplitudes = unit vectors, new = permuted
+                eye = torch.eye(ns, dtype=torch.float64)
+                ref = eye.unsqueeze(0).repeat(ntraj, 1, 1)
+                tgt = ref.clone()
+                for t in range(ntraj):
+                    perm = [p - 1 for p in st["in"][t]["swap"]]
+                    for i_ in range(ns):
+                        tgt[t, perm[i_]] = eye[i_]
+                z = torch.zeros(ntraj, ns, ns, dtype=torch.float64)
+                dyn._trivial_crossing_mask = dyn._detect_crossings({"cis_amp": ref, "nac_dot": z.clone()}, {"cis_amp": tgt, "nac_dot": z.clone()})
+            else:
+                dyn._trivial_crossing_mask = swap_to if (swap_to >= 0).any() else None
             dyn._hop_integral = hop_int
             dyn._compute_NACR_for_hop = lambda molecule, pairs: {(s1 - 1, s2 - 1): dvec.clone() for (s1, s2) in pairs}
             etot_before = mol.Etot.clone()
@@ -193,6 +205,45 @@ def attempt_hop_grid():
                                 want = j
                         if not boundary and tgt != want:
                             bad.append({"active": active, "pop": pop_active, "row": row, "r": r, "got": tgt, "expected": want})
+        # batches: the selection rule is per trajectory, whatever the other rows look like (Isolation)
+        rows = [[0.0, 0.125, 0.25, 0.0], [0.5, 0.5, 0.5, 0.5], [2.0, 0.0, 1.0, 0.0], [-0.5, 0.25, 0.0, 0.0], [0.0, 0.0, 0.0, 0.0]]
+        dyn3 = make_dyn(DummyFSSH, 3, 4, False)
+
+        def expect(row, active, pop, r):
+            g = [max(0.0, x / pop) if j != active else 0.0 for j, x in enumerate(row)]
+            ssum = sum(g)
+            if ssum > 1.0:
+                g = [x / ssum for x in g]
+            cum, want, boundary = 0.0, -1, False
+            for j, x in enumerate(g):
+                cum += x
+                boundary = boundary or abs(cum - r) < 1e-9
+                if cum >= r and want < 0:
+                    want = j
+            return want, boundary
+
+        for ia, ra in enumerate(rows):
+            for ib, rb in enumerate(rows):
+                for ic, rc in enumerate(rows[:3]):
+                    trio = (ra, rb, rc)
+                    acts = (0, (ia + ib) % 4, 3)
+                    pops = (1.0, 0.25, 0.0625)
+                    rs = (0.75, 0.5, 0.25)
+                    dyn3._active_states = torch.tensor(acts)
+                    dyn3._amp_phase.zero_()
+                    hi = torch.zeros(3, 4, 4, dtype=torch.float64)
+                    for t in range(3):
+                        dyn3._amp_phase[t, acts[t], 0] = pops[t] ** 0.5
+                        for j, x in enumerate(trio[t]):
+                            if j != acts[t]:
+                                hi[t, acts[t], j] = x
+                    dyn3._hop_integral = hi
+                    torch.rand = lambda *a, **k: torch.tensor(rs, dtype=torch.float64)
+                    got = [int(x) for x in dyn3._attempt_hop()]
+                    for t in range(3):
+                        want, boundary = expect(trio[t], acts[t], pops[t], rs[t])
+                        if not boundary and got[t] != want:
+                            bad.append({"batch_rows": trio, "traj": t, "active": acts[t], "pop": pops[t], "r": rs[t], "got": got[t], "expected": want})
     finally:
         torch.rand = orig_rand
     return bad[:5]
